@@ -300,9 +300,125 @@ u_history(uint64_t idx, void *arg)
     }
 }
 
+/* capacities beyond 255 and 65535: indices that do not fit 8 or 16 bits; several wrap-arounds */
+static void
+u_bigcap(uint64_t idx, void *arg)
+{
+    (void)arg;
+    static const size_t caps[] = { 255, 256, 257, 65535, 65536, 65537, 70000 };
+    size_t cap = caps[idx % 7];
+    int ty = (int)(idx / 7) % 2;
+    vh_arena_reset();
+    /* model: ring of expected values kept as a window over a counter */
+    uint64_t next = 1, oldest = 1; /* queue holds values oldest..next-1 */
+    size_t n = 0;
+    uint8_t *d8 = ty == 0 ? vh_arena(cap) : NULL;
+    uint64_t *d64 = ty == 1 ? vh_arena(cap * sizeof(uint64_t)) : NULL;
+    octet_ring r8;
+    ring64 r64;
+    if (ty == 0)
+        octet_ring_init(&r8, d8, cap);
+    else
+        ring64_init(&r64, d64, cap);
+    vh_rng r;
+    vh_unit_rng(&r, "bigcap", idx);
+    int override = 0;
+    size_t ops = 3 * cap + 1000;
+    for (size_t i = 0; i < ops; i++) {
+        VH_CASE4(idx, cap, i, n);
+        unsigned x = (unsigned)vh_below(&r, 100);
+        /* phases: fill, overrun in override mode, drain a little, refill across the wrap */
+        int put = i < cap + 10 ? 1 : (i < 2 * cap ? x < 80 : x < 55);
+        if (i == cap + 5) {
+            override = 1;
+            if (ty == 0) octet_ring_override_if_full(&r8, true); else ring64_override_if_full(&r64, true);
+        }
+        if (put) {
+            uint64_t v = next;
+            if (ty == 0 && (uint8_t)v == 0) {
+                next++;
+                oldest += (n == 0);
+                v = next;
+            }
+            if (ty == 0) octet_ring_put(&r8, (uint8_t)v); else ring64_put(&r64, v);
+            if (n == cap) {
+                if (override) {
+                    oldest++;
+                    if (ty == 0 && (uint8_t)oldest == 0)
+                        oldest++;
+                    next++;
+                }
+            } else {
+                n++;
+                next++;
+            }
+        } else {
+            uint64_t g = ty == 0 ? octet_ring_get(&r8) : ring64_get(&r64);
+            uint64_t e = 0;
+            if (n) {
+                e = ty == 0 ? (uint8_t)oldest : oldest;
+                oldest++;
+                if (ty == 0 && (uint8_t)oldest == 0 && oldest != next)
+                    oldest++;
+                n--;
+            }
+            if (g != e) {
+                vh_fail("get", ty ? "type=u64 capacity=large" : "type=u8 capacity=large", "cap=%zu step %zu: got %" PRIx64 " expected %" PRIx64,
+                        cap, i, g, e);
+                return;
+            }
+        }
+        size_t sz = ty == 0 ? octet_ring_size(&r8) : ring64_size(&r64);
+        if (sz != n) {
+            vh_fail("size", ty ? "type=u64 capacity=large" : "type=u8 capacity=large", "cap=%zu step %zu: size %zu model %zu", cap, i, sz, n);
+            return;
+        }
+        if ((i % 997) == 0 || i + 1 == ops) {
+            /* iterate: count and endpoints */
+            rb_iter it;
+            size_t steps = 0;
+            uint64_t first = 0, last = 0;
+            if (ty == 0) {
+                for (octet_ring_iter(&it, &r8, RING_BUFFER_ITER_OLD_TO_NEW); !rb_iter_done(&it); rb_iter_advance(&it), steps++) {
+                    last = octet_ring_inspect(&r8, &it);
+                    if (steps == 0)
+                        first = last;
+                }
+            } else {
+                for (ring64_iter(&it, &r64, RING_BUFFER_ITER_OLD_TO_NEW); !rb_iter_done(&it); rb_iter_advance(&it), steps++) {
+                    last = ring64_inspect(&r64, &it);
+                    if (steps == 0)
+                        first = last;
+                }
+            }
+            if (steps != n || (ty == 1 && n && (first != oldest || last != next - 1)))
+                vh_fail("iter-old-to-new-steps", ty ? "type=u64 capacity=large" : "type=u8 capacity=large",
+                        "cap=%zu step %zu: %zu steps (model %zu), first %" PRIx64 " last %" PRIx64 " expected %" PRIx64 "..%" PRIx64, cap, i,
+                        steps, n, first, last, oldest, next - 1);
+            steps = 0;
+            if (ty == 1) {
+                for (ring64_iter(&it, &r64, RING_BUFFER_ITER_NEW_TO_OLD); !rb_iter_done(&it); rb_iter_advance(&it), steps++) {
+                    uint64_t v = ring64_inspect(&r64, &it);
+                    if (v != next - 1 - steps) {
+                        vh_fail("iter-new-to-old", "type=u64 capacity=large", "cap=%zu step %zu: element %zu is %" PRIx64, cap, i, steps, v);
+                        break;
+                    }
+                }
+                if (steps != n)
+                    vh_fail("iter-new-to-old-steps", "type=u64 capacity=large", "cap=%zu: %zu steps model %zu", cap, steps, n);
+            }
+        }
+    }
+    *vh_ncases += ops;
+    VH_COUNT("history: capacity of 255..70000 with several wrap-arounds");
+    vh_sig(0x19100000ull ^ idx);
+}
+
 void
 harness_run(void)
 {
+    for (uint64_t i = 0; i < 14; i++)
+        vh_unit("bigcap", i, u_bigcap, NULL);
     for (uint64_t i = 0; i < 12; i++)
         vh_unit("closure", i, u_closure, NULL);
     uint64_t nh = vh_tier ? 24000 : 160;
@@ -319,4 +435,5 @@ harness_run(void)
     vh_require("history: observed full in override mode");
     vh_require("history: observed full in drop mode");
     vh_require("history: capacity above 255");
+    vh_require("history: capacity of 255..70000 with several wrap-arounds");
 }
